@@ -1923,3 +1923,87 @@ func (p *Prog) alwaysErr(g *ssa.Function, depth int) bool {
 	}
 	return ok
 }
+
+// indexFuncElem: v is an element list[i] with i = slices.IndexFunc(list', pred), list' as long as list, and i known
+// >= 0 at blk. Returns the list, the predicate function and the values bound to its free variables (nil for a plain
+// function).
+func (c *Ctx) indexFuncElem(v ssa.Value, blk *ssa.BasicBlock) (list ssa.Value, pred *ssa.Function, bindings []ssa.Value, ok bool) {
+	var idx ssa.Value
+	switch x := v.(type) {
+	case *ssa.UnOp:
+		if ia, isIA := x.X.(*ssa.IndexAddr); isIA && x.Op == token.MUL {
+			list, idx = ia.X, ia.Index
+		}
+	case *ssa.Index:
+		list, idx = x.X, x.Index
+	case *ssa.IndexAddr:
+		list, idx = x.X, x.Index
+	}
+	ic, isCall := idx.(*ssa.Call)
+	if !isCall || genericBase(calleeName(ic)) != "slices.IndexFunc" || len(ic.Call.Args) != 2 || !sameLen(ic.Call.Args[0], list) || !c.indexFound(ic, blk) {
+		return nil, nil, nil, false
+	}
+	switch p := ic.Call.Args[1].(type) {
+	case *ssa.MakeClosure:
+		pred, bindings = p.Fn.(*ssa.Function), p.Bindings
+	case *ssa.Function:
+		pred = p
+	}
+	return list, pred, bindings, pred != nil && pred.Blocks != nil
+}
+
+// outerValueOf: a value inside a closure seen from the function that made it: a load of a free variable is the value
+// stored in the captured variable (the only store), anything else stays as it is.
+func outerValueOf(v ssa.Value, pred *ssa.Function, bindings []ssa.Value) ssa.Value {
+	if u, ok := v.(*ssa.UnOp); ok && u.Op == token.MUL {
+		if fv, ok := u.X.(*ssa.FreeVar); ok {
+			for i, f := range pred.FreeVars {
+				if f == fv && i < len(bindings) {
+					if al, ok := bindings[i].(*ssa.Alloc); ok {
+						if st := storesTo(al); len(st) == 1 {
+							return resolve(st[0].Val, st[0])
+						}
+					}
+					return bindings[i]
+				}
+			}
+		}
+	}
+	if fv, ok := v.(*ssa.FreeVar); ok {
+		for i, f := range pred.FreeVars {
+			if f == fv && i < len(bindings) {
+				return bindings[i]
+			}
+		}
+	}
+	return v
+}
+
+// fieldOfParam: v is <first parameter of pred>.<name> (the parameter may be spilled).
+func fieldOfParam(v ssa.Value, pred *ssa.Function, name string) bool {
+	if len(pred.Params) == 0 {
+		return false
+	}
+	isParam := func(x ssa.Value) bool {
+		if x == ssa.Value(pred.Params[0]) {
+			return true
+		}
+		if al, ok := x.(*ssa.Alloc); ok {
+			for _, st := range storesTo(al) {
+				if st.Val == ssa.Value(pred.Params[0]) {
+					return true
+				}
+			}
+		}
+		return false
+	}
+	switch x := v.(type) {
+	case *ssa.Field:
+		return fieldName(x.X.Type(), x.Field) == name && isParam(x.X)
+	case *ssa.UnOp:
+		if fa, ok := x.X.(*ssa.FieldAddr); ok && x.Op == token.MUL {
+			return fieldName(fa.X.Type(), fa.Field) == name && isParam(fa.X)
+		}
+	}
+	return false
+}
